@@ -108,10 +108,25 @@ def gen_case(rng, state):
     return evs, raws
 
 
+def big_case(rng, nrows):
+    """a database with 25 tables (every schema lookup scans the catalog) and ONE statement of thousands of rows:
+    its validation pass and its storing pass each last several periods of the 100 ms flush timer, so the flusher
+    asks for the lock again and again while the statement is inside - the statement must still return"""
+    evs = [("createdb", "d"), ("use", "d")]
+    for i in range(24):
+        evs.append(("sql_stmt", {"k": "create", "table": "f%d" % i, "cols": [("a", "int", 0), ("b", "varchar", 20)]}))
+    evs.append(("sql_stmt", {"k": "create", "table": "t", "cols": COLS}))
+    rows = ", ".join("(%d, %d, 'r%d', %s)" % (i, i * 7, i % 10, "TRUE" if i % 2 else "FALSE") for i in range(nrows))
+    raws = ["INSERT INTO t VALUES " + rows, "SELECT count(*) FROM t", "DELETE FROM t WHERE i < %d" % (nrows // 2),
+            "SELECT count(*), f FROM t GROUP BY f", "INSERT INTO t VALUES (1, 2, 'x', TRUE), (2, 'wrong type', 'x', TRUE)"]
+    return evs, raws
+
+
 def run(ctx):
     n = 6 if ctx.tier == "quick" else 60
     states = ["no_use", "failed_use", "empty", "populated", "populated", "populated"]
     built = [(s, gen_case(ctx.rng, s)) for s in states for _ in range(n)]
+    built += [("many_rows_in_one_statement", big_case(ctx.rng, nr)) for nr in ([4000] if ctx.tier == "quick" else [4000, 9000, 2500])]
     cases = [b[1][0] for b in built]
     inputs = []
     for state, (evs, raws) in built:
